@@ -89,9 +89,10 @@ class Var:
     def __init__(self, path, region, off, size, live):
         self.path, self.region, self.off, self.size, self.live = \
             path, region, off, size, live
+        self._bytes = frozenset((region, off + i) for i in range(size))
 
     def bytes_(self):
-        return {(self.region, self.off + i) for i in range(self.size)}
+        return self._bytes
 
     def __repr__(self):
         return f"{'.'.join(map(str, self.path))}@{self.region}+{self.off}" \
@@ -107,6 +108,8 @@ class Prog:
         self.fake = FakeMaps()
         self.templog = []
         self.in_stmt = False
+        self._sent = {}
+        self._mapidx = {}
         prog = self
         Key = type("Key", (Structure,), {"kI": Member("I"),
                                          "kB": Member("B")})
@@ -227,11 +230,15 @@ class Prog:
         self.e.owners.add(no)
 
     def sentinel(self, var, which):
-        j = self.vars.index(var)
-        out = bytes((0x31 + 0x0b * j + 0x3 * i) & 0xff
-                    for i in range(var.size))
-        if which:
-            out = bytes(b ^ 0xff for b in out)
+        key = (var.path, which)
+        out = self._sent.get(key)
+        if out is None:
+            j = self.vars.index(var)
+            out = bytes((0x31 + 0x0b * j + 0x3 * i) & 0xff
+                        for i in range(var.size))
+            if which:
+                out = bytes(b ^ 0xff for b in out)
+            self._sent[key] = out
         return out
 
     def emit(self, e):
@@ -242,11 +249,22 @@ class Prog:
                                       -1 if v.live == "always"
                                       else v.live[1]))
         if self.dict_area is not None:
-            for off in range(*self.dict_area):
+            lo, hi = self.dict_area
+            for off in range(lo, hi - 3, 4):
+                self.raw(0x62, 10, 0, off - 512, 0x5d5d5d5d)
+            for off in range(lo + (hi - lo) // 4 * 4, hi):
                 self.raw(0x72, 10, 0, off - 512, 0x5d)
         for v in order:
-            for i, b in enumerate(self.sentinel(v, 0)):
-                self.raw(0x72, 10, 0, v.off - 512 + i, b)
+            sb = self.sentinel(v, 0)
+            i = 0
+            while i < len(sb):
+                if len(sb) - i >= 4:
+                    self.raw(0x62, 10, 0, v.off - 512 + i,
+                             int.from_bytes(sb[i:i + 4], "little"))
+                    i += 4
+                else:
+                    self.raw(0x72, 10, 0, v.off - 512 + i, sb[i])
+                    i += 1
         # operand registers only where the statement needs them (a hash-map
         # access has to save every owned register below r6 in a free one)
         k = self.stmt[0]
@@ -362,10 +380,12 @@ class Prog:
 
     def mapidx(self, name):
         """creation order of the maps = order of Map objects in the class"""
-        from ebpfcat.ebpf import Map
-        names = [n for n, v in self.cls.__dict__.items()
-                 if isinstance(v, Map)]
-        return names.index(name)
+        if not self._mapidx:
+            from ebpfcat.ebpf import Map
+            names = [n for n, v in self.cls.__dict__.items()
+                     if isinstance(v, Map)]
+            self._mapidx = {n: i for i, n in enumerate(names)}
+        return self._mapidx[name]
 
     def snapshot(self, vm):
         k = self.fake.kernel
@@ -383,10 +403,14 @@ class Prog:
     def run(self, which):
         """-> (status, before, after, steps)"""
         vm = self.world(which)
-        while vm.pc != self.start:
-            if vm.done:
-                raise core.Internal("statement not reached")
-            vm.step()
+        try:
+            while vm.pc != self.start:
+                if vm.done:
+                    return "exit before the statement", None, None, vm.steps
+                vm.step()
+        except bpfvm.Trap as t:
+            return "trap before the statement: " + str(t), None, None, \
+                vm.steps
         if which:
             for v in self.vars:
                 if v.region == "stack":
@@ -498,6 +522,10 @@ def ctxname(ctx):
     return "main" if ctx == "main" else "sub"
 
 
+_stored = {}
+KEEP = 2      # stored violations per signature and work item (shape)
+
+
 def run_case(shape, stmt, res, caseno):
     cj = dict(shape=shape_json(shape), stmt=list(stmt))
     try:
@@ -516,15 +544,23 @@ def run_case(shape, stmt, res, caseno):
         if key in seen:
             return
         seen.add(key)
+        sig = core.digest([kind, ctxname(ctx) if ctx else None, note,
+                           stmt[0], str(kf)])
+        n = _stored[sig] = _stored.get(sig, 0) + 1
+        if n > KEEP:
+            res.count("violations_not_stored")
+            return
         res.violation(dict(cj, context=ctx, observer=kind), exp, obs, kf=kf,
-                      sig=core.digest([kind, ctxname(ctx) if ctx else None,
-                                       note, stmt[0], str(kf)]),
-                      note=note)
+                      sig=sig, note=note)
     static_observer(p, res, report)
     for which in (0, 1):
         status, before, after, steps = p.run(which)
         res.count("evaluations")
         res.count("transitions", steps)
+        if before is None:
+            res.count("not_reached")
+            res.outcomes.add((status[:60],))
+            continue
         if status.startswith("trap"):
             res.count("trapped")
             res.outcomes.add(("trap", stmt[0], status[6:40]))
@@ -629,7 +665,7 @@ def shapes(ctx):
             out.append((main, dictpos, (), ()))
             out.append((main, dictpos, (("I",),), (0,)))
     mains2 = [(), ("B",), ("I",), ("q",), ((3, 1),), ("q", "B")] \
-        if not ctx.quick else [(), ("I",), ("q",), ("q", "B")]
+        if not ctx.quick else [(), ("q",), ("q", "B")]
     seconds = [("I",), ("q", "B"), ("B",)] if not ctx.quick else [("q", "B")]
     for main in mains2:
         for dictpos in ("none", "last"):
@@ -647,6 +683,7 @@ def shapes(ctx):
 
 def work(item, res):
     (shape, quick), base = item
+    _stored.clear()
     for i, st in enumerate(statements(shape, quick)):
         run_case(shape, st, res, base + i)
 
